@@ -10,7 +10,7 @@ FUNCTIONS = ["distance3d.gjk.gjk_distance_original (Johnson sub-algorithm, backu
 STUBS = []
 OUTSIDE = ["full Nesterov/original runs with smooth colliders (nested radicals); for those only the one-step dispatch/inflation contract is covered",
            "normalize_support_direction (mesh-mesh with acceleration)", "rounding"]
-BOUNDS = {"quick": "original: 6 polytope pairs x 4 sweeps; nesterov +-acceleration: 3 pairs x 4 sweeps, primitives: box pairs; contract: all 121 ordered type pairs x 1 rotation sweep of the whole scene (all angles but pi)",
+BOUNDS = {"quick": "original: 6 polytope pairs x 4 sweeps + unequal parallel boxes (box_box2: 4 sweeps, box_box3: 3 lines through the grid offset (0.5,0,2)); nesterov +-acceleration: 3 pairs x 4 sweeps, primitives: box pairs; contract: all 121 ordered type pairs x 1 rotation sweep of the whole scene (all angles but pi)",
           "thorough": "all corpus pairs and sweeps; contract x 3 rotation sweeps x both modules"}
 WALL_BUDGET = {"quick": 300, "thorough": 600}
 EXPECTED_EXCEPTIONS = ()
@@ -57,6 +57,12 @@ def jobs(tier, seed):
         for si in (0, 1, 2, 6):
             J.append({"family": "original:box_box2", "args": {"a": P[0], "b": P[7], "sweep": GC.SWEEPS[si], "a_pose": 0, "swap": si % 2 == 1,
                                                               "algo": "original"}})
+        # unequal parallel boxes on translation lines through grid offsets where the origin's projection falls exactly on a
+        # line through two simplex vertices (equality cases of the Johnson region tests)
+        b3 = {"type": "box", "size": [1.0, 3.0, 2.0]}
+        for u, o in ((GC.Y, [0.5, 0.0, 2.0]), (GC.X, [0.0, 0.0, 2.0]), (GC.Z, [0.5, 0.0, 0.0])):
+            J.append({"family": "original:box_box3", "args": {"a": P[0], "b": b3, "sweep": {"kind": "T1", "u": u, "o": o}, "a_pose": 0,
+                                                              "swap": False, "algo": "original"}})
     for algo in ("nesterov", "nesterov_acc", "prim", "prim_acc"):
         for j in GC.pair_jobs(tier, seed, algo=algo, n_pairs_quick=3):
             if algo.startswith("prim") and not (j["args"]["a"]["type"] == "box" and j["args"]["b"]["type"] == "box"):
@@ -72,6 +78,7 @@ def jobs(tier, seed):
     if tier == "quick":
         head = [j for j in J if j["family"].startswith("contract:")]
         rest = [j for j in J if not j["family"].startswith("contract:")]
+        rest.sort(key=lambda j: 0 if j["family"] == "original:box_box3" else 1)     # stable: these three lead their group
         groups = {}
         for j in rest:
             groups.setdefault(j["family"].split(":")[0], []).append(j)
